@@ -1,5 +1,5 @@
 """C20: the sample generator writes the requested files where it was told to (Gen.tla)."""
-import hashlib, json, os, random, re
+import hashlib, json, os, random, re, shutil
 import vlib
 from checks.c13 import build_tool
 
@@ -64,10 +64,29 @@ def run(tier):
         scen.append((NCPU_PLUS, 100000000, "./a/b/c", None, 16))
     else:
         scen.append((5, 1000000, "ABS", None, 16))
+    # an ordinary (unprivileged) user and output directories that do not exist yet: the tool creates them and must then be
+    # able to use them. When the check itself does not run as root every scenario above already is of this kind.
+    unpriv = set()
+    if vlib.can_drop_privileges():
+        for sc_ in [(3, 4096, "./a/b/c", None, 4), (2, 20000, None, None, 2), (2, 4096, "fresh", "0", 1)]:
+            unpriv.add(len(scen))
+            scen.append(sc_)
+    run.extra["unprivileged_scenarios"] = len(unpriv)
+    pubbin = None
     events = []
     metas = []
     for si, (s, n, o, ts, gmp) in enumerate(scen):
         cwd = vlib.scratch("gen")
+        user = None
+        if si in unpriv:
+            os.chmod(cwd, 0o777)
+            if pubbin is None:
+                pubdir = vlib.scratch("genbin")
+                os.chmod(pubdir, 0o755)
+                pubbin = os.path.join(pubdir, "rdgen")
+                shutil.copy(gen, pubbin)
+                os.chmod(pubbin, 0o755)
+            user = "nobody"
         args = ["-s", str(s), "-n", str(n)]
         if o is None:
             reqdir = "target/data"
@@ -86,10 +105,10 @@ def run(tier):
             reqdir = os.path.normpath(o)
             args += ["-o", o]
         before = snapshot(cwd)
-        p = vlib.run_bin(gen, args, timeout=300, env={"GOMAXPROCS": str(gmp)}, cwd=cwd, taskset=ts)
+        p = vlib.run_bin(pubbin if user else gen, args, timeout=300, env={"GOMAXPROCS": str(gmp)}, cwd=cwd, taskset=ts, user=user)
         hang = bool(getattr(p, "timed_out", False))
         if hang:
-            p2 = vlib.run_bin(gen, args, timeout=300, env={"GOMAXPROCS": str(gmp)}, cwd=cwd, taskset=ts)
+            p2 = vlib.run_bin(pubbin if user else gen, args, timeout=300, env={"GOMAXPROCS": str(gmp)}, cwd=cwd, taskset=ts, user=user)
             if not getattr(p2, "timed_out", False):
                 p, hang = p2, False
         after = snapshot(cwd)
@@ -113,7 +132,7 @@ def run(tier):
                 det_s, det_bits = 0, 0
         events.append({"ev": "gen", "s": s, "n": n, "dir": reqdir, "code": p.returncode if not hang else -9, "hang": hang, "created": created,
                        "det_s": det_s, "det_bits": det_bits, "id": si})
-        metas.append({"args": args, "taskset": ts, "gomaxprocs": gmp, "stderr": (p.stderr or "")[-400:]})
+        metas.append({"args": args, "taskset": ts, "gomaxprocs": gmp, "user": user or "(the check's own)", "stderr": (p.stderr or "")[-400:]})
         run.nontriv(json.dumps([s, n, o, ts, gmp]))
     acc, rej, gen_ = vlib.validate_trace("TraceGen", events, timeout=900, max_rej=50, nsplit=4)
     run.states += acc; run.transitions += gen_; run.traces += acc; run.evaluations += len(events)
@@ -122,8 +141,8 @@ def run(tier):
         m = metas[e["id"]]
         dirs = sorted({c["dir"] for c in e["created"]})
         o_given = "-o" in m["args"]
-        facts = {"kind": "gen", "o_given": o_given, "wrote_to": ",".join(dirs)[:80] if dirs != [e["dir"]] else "requested"}
-        run.violation(facts, {"args": m["args"], "event": {k: v for k, v in e.items() if k != "created"}, "created_dirs": dirs, "created_head": e["created"][:3], "stderr": m["stderr"]})
+        facts = {"kind": "gen", "o_given": o_given, "wrote_to": ",".join(dirs)[:80] if dirs != [e["dir"]] else "requested", "user": m["user"]}
+        run.violation(facts, {"args": m["args"], "user": m["user"], "event": {k: v for k, v in e.items() if k != "created"}, "created_dirs": dirs, "created_head": e["created"][:3], "stderr": m["stderr"]})
     run.rule = ("model: every interleaving of main and <=3 writers for <=4 (5) files; real binary in a scratch cwd: s x n x output path (absent = documented default, relative, nested not existing, absolute, "
                 "pre-existing with stale files) x taskset / GOMAXPROCS; tree snapshot before/after; generated 20000-bit (thorough also 10^6-bit) directories are handed to the real rddetector")
     run.explanation = "TraceGen.tla requires exactly s files random0..random(s-1).bin of n/8 bytes in the requested directory, nothing created elsewhere, pairwise different contents."
